@@ -96,6 +96,7 @@ func loadRepo(dir string, overlay map[string][]byte) (*Ctx, error) {
 	paramCellMemo = map[*ssa.Parameter]*ssa.Alloc{}
 	fnKeyMemo = map[*ssa.Function]string{}
 	chanFieldAliasMemo = map[string]string{}
+	dualSwapMemo = map[string][3]int{}
 	permMemo = map[*ssa.Function][]string{}
 	acquiredMemo = map[*ssa.Function]lockset{}
 	// Enumerate functions: package members, methods of every named type (AllFunctions misses methods of
@@ -161,6 +162,7 @@ func loadRepo(dir string, overlay map[string][]byte) (*Ctx, error) {
 	paramCellMemo = map[*ssa.Parameter]*ssa.Alloc{}
 	fnKeyMemo = map[*ssa.Function]string{}
 	chanFieldAliasMemo = map[string]string{}
+	dualSwapMemo = map[string][3]int{}
 	permMemo = map[*ssa.Function][]string{}
 	acquiredMemo = map[*ssa.Function]lockset{}
 	return c, nil
@@ -365,6 +367,7 @@ var forwardedParam = map[*ssa.Parameter]ssa.Value{}
 // helper's parameters denote what the forwarder passes.
 func (c *Ctx) aliasOutlinedBodies() {
 	forwardedParam = map[*ssa.Parameter]ssa.Value{}
+	aliasedHelpers := map[*ssa.Function]bool{}
 	var keys []string
 	for k := range c.byName {
 		if !strings.Contains(k, "$") {
@@ -381,7 +384,7 @@ func (c *Ctx) aliasOutlinedBodies() {
 		thin := true
 		for _, in := range f.Blocks[0].Instrs {
 			switch x := in.(type) {
-			case *ssa.FieldAddr, *ssa.DebugRef, *ssa.Extract, *ssa.Return:
+			case *ssa.FieldAddr, *ssa.DebugRef, *ssa.Extract, *ssa.Return, *ssa.MakeInterface, *ssa.ChangeInterface, *ssa.ChangeType:
 			case *ssa.UnOp:
 				if x.Op != token.MUL {
 					thin = false
@@ -399,17 +402,47 @@ func (c *Ctx) aliasOutlinedBodies() {
 			continue
 		}
 		h := origin(call.Call.StaticCallee())
-		if h == nil || h.Blocks == nil || h.Parent() != nil || token.IsExported(h.Name()) || rootFn(h).Pkg != rootFn(f).Pkg || len(h.Blocks) < 2 || h == f {
+		if h == nil || h.Blocks == nil || h.Parent() != nil || token.IsExported(h.Name()) || rootFn(h).Pkg != rootFn(f).Pkg || (len(h.Blocks) < 2 && len(h.AnonFuncs) == 0) || h == f {
 			continue
 		}
-		if len(callCommonsOf(c, h)) != 1 || len(call.Call.Args) != len(h.Params) {
+		if len(call.Call.Args) != len(h.Params) {
 			continue
+		}
+		if len(callCommonsOf(c, h)) != 1 {
+			// other callers are tolerated when the forwarder only passes its own parameters on, in order (func BatchFunc(s,
+			// maxWait, full) Stream[T] { return startBatching(s, maxWait, full) }, with Batch calling startBatching too): the
+			// helper's parameters are then the forwarder's under other names, whoever else calls it
+			pass := len(call.Call.Args) == len(f.Params) && !aliasedHelpers[h]
+			for i, a := range call.Call.Args {
+				if pass && (i >= len(f.Params) || a != ssa.Value(f.Params[i])) {
+					pass = false
+				}
+			}
+			if !pass {
+				continue
+			}
 		}
 		// the results are the helper's, unchanged
 		okRet := false
 		if ret, isRet := f.Blocks[0].Instrs[len(f.Blocks[0].Instrs)-1].(*ssa.Return); isRet {
 			okRet = true
 			for i, rv := range ret.Results {
+				for {
+					// the helper's concrete result handed back as the interface the name promises
+					if mi, isMI := rv.(*ssa.MakeInterface); isMI {
+						rv = mi.X
+						continue
+					}
+					if ci, isCI := rv.(*ssa.ChangeInterface); isCI {
+						rv = ci.X
+						continue
+					}
+					if ct, isCT := rv.(*ssa.ChangeType); isCT {
+						rv = ct.X
+						continue
+					}
+					break
+				}
 				switch y := rv.(type) {
 				case *ssa.Call:
 					okRet = okRet && y == call && len(ret.Results) == 1
@@ -429,6 +462,7 @@ func (c *Ctx) aliasOutlinedBodies() {
 		for i, p := range h.Params {
 			forwardedParam[p] = call.Call.Args[i]
 		}
+		aliasedHelpers[h] = true
 		c.byName[k] = h
 		var walk func(parent *ssa.Function, pkey string)
 		walk = func(parent *ssa.Function, pkey string) {
